@@ -70,13 +70,14 @@ def apply_deviations(table, devs):
     return t
 
 
-def to_coverage(gene, profile, table, extra=(), sam=None, indel_mode=False):
+def to_coverage(gene, profile, table, extra=(), sam=None, indel_mode=False, hq=None):
     """aldy Coverage from a count table.  `extra` observations carry their own qualities.
     indel_mode=False: indels live in the pileup table itself (the form the unit tests use);
     indel_mode=True: indel counts go to the indel-support table (off, on), as the
     alignment path produces them."""
     from aldy.coverage import Coverage
 
+    HQ = hq or globals()["HQ"]
     cov = {}
     indels = {}
     for pos, d in table.items():
